@@ -931,7 +931,7 @@ func (s *Sim) clockRead() int64 {
 }
 
 // Now is the simulated clock: 1µs per step plus jumps and sleeps.
-func (s *Sim) Now() int64 { return SimEpoch + readSteps()*1000 + s.clock }
+func (s *Sim) Now() int64 { return SimEpoch + readSteps()*StepNS + s.clock }
 
 func (s *Sim) randDraw() uint64 {
 	var v uint64
